@@ -196,6 +196,9 @@ theorem conversion_eq (w : Bool) (st : St) (s : List Char) (d : Directive) (hs :
     rw [show counterItems d.flags = (distinct d.flags).map (fun c => (c, (d.flags.count c : Int))) from rfl]
     refine forEach_map _ _ (flagLoop w d.flags d.conv) (fun _ => rfl) (fun b rest s => ?_) _ _
     simp only [ite_ok, bind_ok, Py.warn]
+    -- both orientations of `count != 1`
+    have hfl : ∀ x : Int, ((1 : Int) ≠ x) = (x ≠ 1) := fun x => propext ne_comm
+    try simp only [hfl]
     exact flag_step w d.flags d.conv b rest s
   -- the two pairs
   refine (bind_of_ok (x := sPairs w d.flags st1) ?pairs).trans ?_
@@ -267,6 +270,8 @@ theorem conversion_eq (w : Bool) (st : St) (s : List Char) (d : Directive) (hs :
   refine bind_congr ?final (fun _ => rfl)
   case final =>
     simp only [sFinal, add_argument_eq, convEntry]
+    have hfl : ("None".toList = tp) = (tp = "None".toList) := propext eq_comm
+    try simp only [hfl]
     by_cases ht : tp = "None".toList
     · simp only [ht, decide_true, if_true]
       cases d.key <;> rfl
